@@ -72,12 +72,7 @@ func cmdFn(args []string) int {
 	var jobs []*job
 	var units []*Unit
 	for _, name := range fs.Args() {
-		fn := e.findFunction(name)
-		if fn == nil {
-			fmt.Fprintf(os.Stderr, "no function %q\n", name)
-			return 2
-		}
-		un, err := e.VerifyFunction(fn)
+		un, err := e.verifyUnit(name)
 		if err != nil {
 			fmt.Fprintln(os.Stderr, err)
 			rc = 2
